@@ -1487,11 +1487,20 @@ func (m *metadataAPI) Reset() error {
 // in the metadata store. Both the metadata API and consumer groups mutexes
 // must be held when calling this.
 func (m *metadataAPI) resetFailovers() {
+	m.resetPartitionFailovers()
+	m.resetGroupFailovers()
+}
+
+// resetPartitionFailovers must be called within the scope of mu.
+func (m *metadataAPI) resetPartitionFailovers() {
 	for _, failover := range m.partitionFailovers {
 		failover.cancel()
 	}
 	m.partitionFailovers = make(map[*partition]*failoverStatus)
+}
 
+// resetGroupFailovers must be called within the scope of consumerGroupsMu.
+func (m *metadataAPI) resetGroupFailovers() {
 	for _, failover := range m.groupFailovers {
 		failover.cancel()
 	}
@@ -1566,11 +1575,16 @@ func (m *metadataAPI) RemoveTombstonedStream(stream *stream, epoch uint64) error
 // LostLeadership should be called when the server loses metadata leadership.
 // This will cancel in-flight failovers.
 func (m *metadataAPI) LostLeadership() {
+	// The two locks are not held together here. The FSM takes them in the
+	// other order (a consumer group operation holds consumerGroupsMu and looks
+	// streams up under mu) and applies operations while leadership is being
+	// lost, which would deadlock this server's metadata for good.
 	m.mu.Lock()
-	defer m.mu.Unlock()
+	m.resetPartitionFailovers()
+	m.mu.Unlock()
 	m.consumerGroupsMu.Lock()
-	defer m.consumerGroupsMu.Unlock()
-	m.resetFailovers()
+	m.resetGroupFailovers()
+	m.consumerGroupsMu.Unlock()
 }
 
 // deleteStream deletes the stream and the associated on-disk data for it.
